@@ -758,6 +758,30 @@ func (s *DB) getHistoricRootsAndNodes(
 			logFunc(fmt.Sprintf("error listing nodes of %s: %v\n", keptName, err))
 		}
 	}
+	// Heads committed by other writers are current, not history, even if
+	// this handle has not merged them yet.
+	if len(candidateBlocks) > 0 {
+		heads, err := s.listRoots(ctx)
+		if err != nil {
+			return nil, nil, fmt.Errorf("list versions in use: %w", err)
+		}
+		for _, headName := range heads {
+			if _, known := rootCacheByName[headName]; known {
+				continue
+			}
+			headRoot, _, err := loadRoot(ctx, s.root, headName)
+			if err != nil {
+				return nil, nil, fmt.Errorf("load %s: %w", headName, err)
+			}
+			head, err := crdt.Load(ctx, s.crdt.Config, &headName, *headRoot)
+			if err == nil {
+				err = head.Mast.DiffLinks(ctx, nil, keep)
+			}
+			if err != nil {
+				return nil, nil, fmt.Errorf("list nodes of %s: %w", headName, err)
+			}
+		}
+	}
 	nodes = make([]string, 0, len(candidateBlocks))
 	for k := range candidateBlocks {
 		nodes = append(nodes, k)
